@@ -850,8 +850,9 @@ void run_family(vf::Run& r, std::vector<Config> cfgs, uint64_t default_max_sched
     } else {
       st = vfs::explore([&](const std::vector<int>& p) { r.beat(); return run_cfg(c, p); }, c.bound, max_sched, [] { return g_outcome; });
     }
-    if (st.outcomes.size() > r.counters["max_distinct_outcomes_one_config"]) r.counters["max_distinct_outcomes_one_config"] = st.outcomes.size();
+    // (counters are summed over the shards by the supervisor, so maxima are reported as threshold counts)
     if (st.outcomes.size() > 1) r.counters["configs_with_more_than_one_outcome"]++;
+    if (st.outcomes.size() >= 16) r.counters["configs_with_16_or_more_distinct_outcomes"]++;
     r.states += st.states;
     r.transitions += st.transitions;
     r.counters["schedules"] += st.schedules;
@@ -861,14 +862,16 @@ void run_family(vf::Run& r, std::vector<Config> cfgs, uint64_t default_max_sched
       r.counters["schedules_with_a_spurious_cas_failure"] += st.schedules_with_spurious;
       r.counters["states_in_configs_with_spurious_budget"] += st.states;
       r.counters["spurious_choice_points(states)"] += st.spurious_choice_points;
-      if (st.max_spurious_in_one > r.counters["max_spurious_failures_in_one_schedule"]) r.counters["max_spurious_failures_in_one_schedule"] = st.max_spurious_in_one;
+      if (st.max_spurious_in_one >= 1) r.counters["configs_where_some_schedule_had_1_or_more_spurious_failures"]++;
+      if (st.max_spurious_in_one >= 2) r.counters["configs_where_some_schedule_had_2_spurious_failures"]++;
     } else {
       r.counters["schedules_in_configs_without_spurious_budget"] += st.schedules;
       r.counters["states_in_configs_without_spurious_budget"] += st.states;
     }
     if (st.schedules > worst) worst = st.schedules;
     if (getenv("VF_C16_STATS")) fprintf(stderr, "STATS %llu schedules %llu states :: %s\n", (unsigned long long)st.schedules, (unsigned long long)st.states, c.str().c_str());
-    if (st.max_preemptions > r.counters["max_preemptions_seen"]) r.counters["max_preemptions_seen"] = st.max_preemptions;
+    if (st.max_preemptions >= 8) r.counters["configs_with_a_schedule_of_8_or_more_preemptions"]++;
+    if (st.schedules >= 1000000) r.counters["configs_with_1M_or_more_schedules"]++;
     (c.bound < 0 ? unbounded : bounded)++;
     bool nontrivial = false;
     for (auto& cl : c.calls) nontrivial |= (cl.threads != 1 && cl.n() >= 2);
@@ -933,7 +936,7 @@ void run_family(vf::Run& r, std::vector<Config> cfgs, uint64_t default_max_sched
       if (!c.in_child && !g_class.empty()) r.counters["last-schedule-class:" + g_class]++;
     }
   }
-  if (worst > r.counters["max_schedules_one_config"]) r.counters["max_schedules_one_config"] = worst;
+  if (worst >= 2000000) r.notes.push_back(vf::fmt("%s shard %llu: largest configuration explored = %llu schedules", r.section.c_str(), (unsigned long long)r.shard, (unsigned long long)worst));
   r.counters["configs_unbounded"] += unbounded;
   r.counters["configs_preemption_bounded"] += bounded;
 }
